@@ -23,3 +23,13 @@ claim("C19",
       "the 7-bit invariant, and writer name tables against the scanners' tables. Text parsing of arbitrary strings is decided only as far as the tables.",
       "Trusted: term reconstruction and constant folding in analysis/sym.py + finmap.py (std bit-count helpers modelled); MIR from rustc nightly.",
       "DESIGN.md 5/C19")
+claim("C15",
+      "interval / variant-set abstract interpretation over MIR (context-sensitive, type invariants, reviewed justification table), call-graph NOREACH, string-progress rule",
+      "Decides for every public fallible entry point (216 in the default build, 272 with serde) and every function it reaches that no arithmetic overflow, "
+      "division by zero, out-of-bounds index, unwrap/expect of an absent value, panic!/unreachable!/assert!, narrowing cast that loses information, construction of an "
+      "out-of-invariant NaiveTime/TimeDelta/FixedOffset/WeekdaySet/Mdf value or out-of-range str slice can happen: each such site is an obligation that the abstract "
+      "interpreter proves for all inputs at once, or that a named reviewed justification covers; anything else is reported with its call path. Also: the panicking "
+      "naive_local is unreachable from fallible roots/renderers/Serialize, every format-string iterator step consumes input (termination), and re-resolved wall clocks "
+      "are range-filtered. The justification table (about 100 sites) is trusted.",
+      "Trusted: the abstract semantics in analysis/abs*.py and stdmodels.py; specs/justifications.txt; std callees without a panic model assumed non-panicking; foreign trait impls well-behaved.",
+      "DESIGN.md 3, 5/C15")
